@@ -70,4 +70,16 @@ theorem election_hypotheses_can_be_met :
         decide ((1 : Int) < s.ct) && decide (s.log 2 = []) && decide ((s.log 1)[0]? = some ⟨1, 100⟩)
      | none => false) = true := by decide
 
+/-- the count `elect` asks for (`n / 2 + 1` answers out of `n` nodes asked) is a majority in A-Repl's sense -/
+theorem needed_answers_are_a_majority (n : Nat) (S : List Nat) (hnd : S.Nodup) (hin : ∀ i ∈ S, i < n)
+    (hcount : n / 2 + 1 ≤ S.length) : Maj n S := by
+  refine ⟨hnd, hin, ?_⟩
+  omega
+
+/-- and fewer answers are not: an election that goes on with fewer could install two leaders from disjoint sets -/
+theorem fewer_answers_are_no_majority (n : Nat) (S : List Nat) (hcount : S.length < n / 2 + 1) : ¬ Maj n S := by
+  intro h
+  have := h.2.2
+  omega
+
 end Oxia.Election
